@@ -170,3 +170,253 @@ Lemma ex_roundtrip :
 Proof.
   repeat split; try reflexivity; repeat constructor; cbn; intuition discriminate.
 Qed.
+
+(* ======================================================================================
+   Persistence at ANY point of a history (composition with the C03 machine)
+   ====================================================================================== *)
+
+Lemma p_st_prun tf nv h : forall p, p_st (prun tf nv p h) = run all_on (t_c03 tf) (p_st p) h.
+Proof. induction h as [|o r IH]; intros p; [reflexivity|]. cbn [prun run]. rewrite IH. reflexivity. Qed.
+
+(* the relation every table of a history bears to the constructor's table *)
+Definition Rc (tf : tfam) (fo fc : field) : Prop :=
+  f_attr fo = f_attr fc /\ f_cls fo = f_cls fc /\ (is_plain fc = true -> is_data tf fc = false -> f_val fo = f_val fc).
+(* ... and to the freshly constructed target *)
+Definition Rf (fo ff : field) : Prop :=
+  f_attr fo = f_attr ff /\ f_cls fo = f_cls ff /\ (is_plain ff = true -> f_val fo = f_val ff).
+
+Lemma Rc_refl tf : forall t, Forall2 (Rc tf) t t.
+Proof. induction t; constructor; [repeat split; auto | assumption]. Qed.
+
+Lemma Forall2_map_l {A B} (R : A -> B -> Prop) (g : A -> A) l l' :
+  (forall a b, R a b -> R (g a) b) -> Forall2 R l l' -> Forall2 R (map g l) l'.
+Proof. intros Hg H. induction H; cbn [map]; constructor; auto. Qed.
+
+Lemma is_data_cls tf f f' : f_attr f = f_attr f' -> f_cls f = f_cls f' -> is_data tf f = is_data tf f'.
+Proof. intros Ha Hc. unfold is_data, is_plain. rewrite Ha, Hc. reflexivity. Qed.
+
+Lemma tstep_Rc tf nv s o t :
+  t_lazy tf = [] -> Forall2 (Rc tf) t (t_ctor tf) -> Forall2 (Rc tf) (tstep tf nv s o t) (t_ctor tf).
+Proof.
+  intros Hl H.
+  assert (Ht : touch tf t = t) by (unfold touch; rewrite Hl; cbn [filter]; apply app_nil_r).
+  destruct o; cbn [tstep]; rewrite ?Ht; try exact H.
+  - (* OStep *)
+    destruct (training s); [|exact H]. apply Forall2_map_l; [|exact H].
+    intros a b [Ha [Hc Hv]]. destruct (is_param a) eqn:Ep; [|repeat split; assumption].
+    repeat split; cbn [set_val f_attr f_cls f_val]; try assumption.
+    intros Hp. exfalso. unfold is_param in Ep. unfold is_plain in Hp. rewrite <- Hc in Hp.
+    destruct (f_cls a); discriminate.
+  - (* OSetData *)
+    destruct (f_has_data (t_c03 tf)); [|exact H]. apply Forall2_map_l; [|exact H].
+    intros a b [Ha [Hc Hv]]. destruct (is_data tf a) eqn:Ed; [|repeat split; assumption].
+    repeat split; cbn [set_val f_attr f_cls f_val]; try assumption.
+    intros Hp Hnd. rewrite (is_data_cls tf a b Ha Hc) in Ed. rewrite Ed in Hnd. discriminate.
+  - (* OLoad *)
+    apply Forall2_map_l; [|exact H].
+    intros a b [Ha [Hc Hv]]. destruct (carried a) eqn:Ec; [|repeat split; assumption].
+    repeat split; cbn [set_val f_attr f_cls f_val]; try assumption.
+    intros Hp. exfalso. unfold carried in Ec. unfold is_plain in Hp. rewrite <- Hc in Hp.
+    destruct (f_cls a); discriminate.
+  - (* OPrior *) destruct (training s); rewrite ?Ht; exact H.
+Qed.
+
+Lemma prun_Rc tf nv h : t_lazy tf = [] -> forall p,
+  Forall2 (Rc tf) (p_tbl p) (t_ctor tf) -> Forall2 (Rc tf) (p_tbl (prun tf nv p h)) (t_ctor tf).
+Proof.
+  intros Hl. induction h as [|o r IH]; intros p H; [exact H|]. cbn [prun]. apply IH.
+  cbn [pstep p_tbl]. apply tstep_Rc; assumption.
+Qed.
+
+Lemma Forall2_attrs tf t c : Forall2 (Rc tf) t c -> map f_attr t = map f_attr c.
+Proof. intros H. induction H as [|a b l l' [Ha _] _ IH]; [reflexivity|]. cbn [map]. rewrite Ha, IH. reflexivity. Qed.
+
+Lemma nodupb_NoDup l : nodupb l = true -> NoDup l.
+Proof.
+  induction l as [|x r IH]; intros H; [constructor|]. cbn [nodupb] in H. apply andb_prop in H.
+  destruct H as [Hx Hr]. constructor; [|apply IH; exact Hr].
+  intros Hin. apply negb_true_iff in Hx. unfold memb in Hx.
+  assert (E : existsb (Nat.eqb x) r = true) by (apply existsb_exists; exists x; split; [exact Hin | apply Nat.eqb_refl]).
+  rewrite E in Hx. discriminate.
+Qed.
+
+Lemma find_attr_self o f : NoDup (map f_attr o) -> In f o -> find_attr (f_attr f) o = Some f.
+Proof.
+  induction o as [|x r IH]; intros Hnd Hin; [destruct Hin|].
+  cbn [map] in Hnd. inversion Hnd as [|? ? Hx Hr]; subst. cbn [find_attr].
+  destruct Hin as [<-|Hin]; [rewrite Nat.eqb_refl; reflexivity|].
+  destruct (f_attr x =? f_attr f) eqn:E; [|apply IH; assumption].
+  exfalso. apply Nat.eqb_eq in E. apply Hx. rewrite E. apply in_map. exact Hin.
+Qed.
+
+(* the freshly constructed target, built from the current constructor arguments of the source *)
+Lemma construct_Rf tf t :
+  NoDup (map f_attr t) -> Forall2 (Rc tf) t (t_ctor tf) -> Forall2 Rf t (construct tf t).
+Proof.
+  intros Hnd H. unfold construct.
+  assert (G : forall l c, Forall2 (Rc tf) l c -> (forall f, In f l -> In f t) ->
+              Forall2 Rf l (map (fun f => if is_data tf f
+                                          then match get (f_attr f) t with Some v => set_val f v | None => f end
+                                          else f) c)).
+  { intros l c HF. induction HF as [|a b l' c' [Ha [Hc Hv]] HF' IH]; intros Hsub; cbn [map]; constructor.
+    - destruct (is_data tf b) eqn:Ed.
+      + unfold get. rewrite <- Ha. rewrite (find_attr_self t a Hnd (Hsub a (or_introl eq_refl))).
+        repeat split; cbn [set_val f_attr f_cls f_val]; auto.
+      + repeat split; auto.
+    - apply IH. intros f Hf. apply Hsub. right. exact Hf. }
+  apply G; [exact H | auto].
+Qed.
+
+Lemma Rf_find o fr : Forall2 Rf o fr -> forall a,
+  match find_attr a o, find_attr a fr with
+  | Some fo, Some ff => Rf fo ff
+  | None, None => True
+  | _, _ => False
+  end.
+Proof.
+  intros H. induction H as [|x y l l' Hxy _ IH]; intros a; cbn [find_attr]; [exact I|].
+  destruct Hxy as [Ha [Hc Hv]]. rewrite <- Ha. destruct (f_attr x =? a); [repeat split; assumption | apply IH].
+Qed.
+
+Lemma Rf_premise o fr : Forall2 Rf o fr -> Forall (fun f => is_cache f = false) o ->
+  forall a, premise o fr a = true.
+Proof.
+  intros H Hnc a. unfold premise. pose proof (Rf_find o fr H a) as Hf.
+  destruct (find_attr a o) as [fo|] eqn:Eo; destruct (find_attr a fr) as [ff|] eqn:Ef; try contradiction; [|reflexivity].
+  destruct Hf as [_ [Hc Hv]].
+  assert (Hin : In fo o) by (apply (find_attr_In a o fo Eo)).
+  rewrite Forall_forall in Hnc. specialize (Hnc fo Hin).
+  unfold carried, is_plain, is_cache in *. rewrite <- Hc in *.
+  destruct (f_cls fo); try reflexivity; try discriminate.
+  cbn. rewrite (Hv eq_refl). apply Nat.eqb_refl.
+Qed.
+
+Lemma Rc_nocache tf t : Forall2 (Rc tf) t (t_ctor tf) -> forallb (fun f => negb (is_cache f)) (t_ctor tf) = true ->
+  Forall (fun f => is_cache f = false) t.
+Proof.
+  intros H Hc. rewrite forallb_forall in Hc. induction H as [|a b l l' [_ [Hcl _]] _ IH]; constructor.
+  - specialize (Hc b (or_introl eq_refl)). apply negb_true_iff in Hc. unfold is_cache in *. rewrite Hcl. exact Hc.
+  - apply IH. intros x Hx. apply Hc. right. exact Hx.
+Qed.
+
+Lemma Rf_attrs o fr : Forall2 Rf o fr -> map f_attr o = map f_attr fr.
+Proof. intros H. induction H as [|a b l l' [Ha _] _ IH]; [reflexivity|]. cbn [map]. rewrite Ha, IH. reflexivity. Qed.
+
+Lemma Rf_carried_keys o fr : Forall2 Rf o fr ->
+  map f_attr (filter carried o) = map f_attr (filter carried fr).
+Proof.
+  intros H. induction H as [|a b l l' [Ha [Hc _]] _ IH]; [reflexivity|]. cbn [filter].
+  assert (E : carried a = carried b) by (unfold carried; rewrite Hc; reflexivity).
+  rewrite E. destruct (carried b); cbn [map]; rewrite ?Ha, IH; reflexivity.
+Qed.
+
+Lemma sd_keys o : map fst (state_dict o) = map f_attr (filter carried o).
+Proof. unfold state_dict. rewrite map_map. reflexivity. Qed.
+
+Lemma sd_get_in k sd : In k (map fst sd) -> sd_get k sd <> None.
+Proof.
+  induction sd as [|[k' v] r IH]; cbn [map fst sd_get]; [intros []|].
+  intros [E|Hin]; destruct (k' =? k) eqn:Ek; try discriminate.
+  - subst. rewrite Nat.eqb_refl in Ek. discriminate.
+  - apply IH. exact Hin.
+Qed.
+
+Lemma filter_none {A} (p : A -> bool) l : (forall x, In x l -> p x = false) -> filter p l = [].
+Proof.
+  induction l as [|x r IH]; intros H; [reflexivity|]. cbn [filter].
+  rewrite (H x (or_introl eq_refl)). apply IH. intros y Hy. apply H. right. exact Hy.
+Qed.
+
+Lemma memb_In x l : In x l -> memb x l = true.
+Proof. intros H. unfold memb. apply existsb_exists. exists x. split; [exact H | apply Nat.eqb_refl]. Qed.
+
+Lemma strict_ok o fr : Forall2 Rf o fr -> load_strict fr (state_dict o) = Some (load fr (state_dict o)).
+Proof.
+  intros H. unfold load_strict.
+  assert (Hm : missing_keys fr (state_dict o) = []).
+  { unfold missing_keys. rewrite filter_none; [reflexivity|]. intros f Hf.
+    destruct (carried f) eqn:Ec; [|reflexivity]. cbn [andb].
+    assert (Hin : In (f_attr f) (map fst (state_dict o))).
+    { rewrite sd_keys, (Rf_carried_keys o fr H). apply in_map. apply filter_In. split; assumption. }
+    pose proof (sd_get_in _ _ Hin) as Hn. destruct (sd_get (f_attr f) (state_dict o)); [reflexivity | contradiction]. }
+  assert (Hu : unexpected_keys fr (state_dict o) = []).
+  { unfold unexpected_keys. rewrite filter_none; [reflexivity|]. intros kv Hkv.
+    apply negb_false_iff. apply memb_In. rewrite <- (Rf_carried_keys o fr H), <- sd_keys.
+    apply in_map. exact Hkv. }
+  rewrite Hm, Hu. reflexivity.
+Qed.
+
+(* the table half: at every point of every history, for ANY set of attributes *)
+Lemma table_roundtrip_any_history tf nv h rel :
+  wf_tfam tf = true -> t_lazy tf = [] ->
+  let p := prun tf nv (pinit tf) h in
+  predict rel (load (construct tf (p_tbl p)) (state_dict (p_tbl p))) = predict rel (p_tbl p) /\
+  load_strict (construct tf (p_tbl p)) (state_dict (p_tbl p)) =
+    Some (load (construct tf (p_tbl p)) (state_dict (p_tbl p))).
+Proof.
+  intros Hwf Hl p. unfold wf_tfam in Hwf. apply andb_prop in Hwf. destruct Hwf as [Hnd Hnc].
+  apply nodupb_NoDup in Hnd.
+  assert (HR : Forall2 (Rc tf) (p_tbl p) (t_ctor tf)).
+  { apply prun_Rc; [exact Hl|]. cbn [pinit p_tbl]. apply Rc_refl. }
+  assert (Hnd' : NoDup (map f_attr (p_tbl p))) by (rewrite (Forall2_attrs tf _ _ HR); exact Hnd).
+  pose proof (construct_Rf tf (p_tbl p) Hnd' HR) as HF.
+  assert (Hndf : NoDup (map f_attr (construct tf (p_tbl p)))) by (rewrite <- (Rf_attrs _ _ HF); exact Hnd').
+  pose proof (Rc_nocache tf _ HR Hnc) as Hcache.
+  split; [|apply strict_ok; exact HF].
+  apply roundtrip_sd; [exact Hnd' | exact Hndf |].
+  apply forallb_forall. intros a _. apply Rf_premise; assumption.
+Qed.
+
+(* the whole object: state_dict -> fresh, pickle, deepcopy at ANY point of ANY admissible history *)
+Lemma persist_any_history tf nv h rel c :
+  wf_tfam tf = true -> t_lazy tf = [] -> wf_family (t_c03 tf) = true ->
+  admissible all_on (t_c03 tf) init h = true -> keyed_history (t_c03 tf) h = true ->
+  c < f_ncfg (t_c03 tf) -> cfg_keyed (t_c03 tf) c = true ->
+  let p := prun tf nv (pinit tf) h in
+  training (p_st p) = false ->
+  pobserve tf rel (restore_sd tf p) c = pobserve tf rel p c /\
+  pobserve tf rel (restore_pickle p) c = pobserve tf rel p c /\
+  pobserve tf rel (restore_deepcopy tf p) c = pobserve tf rel p c.
+Proof.
+  intros Hwf Hl Hf Ha Hk Hc Hck p Htr.
+  assert (Hst : p_st p = run all_on (t_c03 tf) init h) by (unfold p; rewrite p_st_prun; reflexivity).
+  assert (HI : Inv (t_c03 tf) (p_st p)) by (rewrite Hst; apply (Inv_run _ Hf h init (Inv_init _) Ha Hk)).
+  split; [|split; [reflexivity|]].
+  - unfold pobserve, restore_sd. cbn [p_tbl p_st]. f_equal.
+    + apply (table_roundtrip_any_history tf nv h rel Hwf Hl).
+    + rewrite Htr.
+      rewrite (predict_out_eval _ Hf _ c (Inv_fresh _ _ _ false) eq_refl Hc Hck).
+      rewrite (predict_out_eval _ Hf _ c HI Htr Hc Hck). reflexivity.
+  - unfold pobserve, restore_deepcopy. cbn [p_tbl p_st]. f_equal.
+    assert (HI' : Inv (t_c03 tf) (set_cache (p_st p) (drop (f_strat_slots (t_c03 tf)) (cch (p_st p))))).
+    { destruct HI as [H1 H2]. split; cbn [set_cache cch training pv dv].
+      - apply drop_Forall. exact H1.
+      - intros Ht. apply drop_Forall. apply H2. exact Ht. }
+    rewrite (predict_out_eval _ Hf _ c HI' Htr Hc Hck).
+    rewrite (predict_out_eval _ Hf _ c HI Htr Hc Hck). reflexivity.
+Qed.
+
+(* the hypothesis [t_lazy = []] cannot be dropped: with a lazily registered buffer (RFFKernel) a
+   state_dict saved BEFORE the first call loads, one saved after ANY call does not (strict), and a
+   non-strict load loses the buffer *)
+Lemma lazy_history_refuted :
+  wf_tfam tf_rff = true /\
+  (forall nv, load_strict (construct tf_rff (p_tbl (prun tf_rff nv (pinit tf_rff) [])))
+                          (state_dict (p_tbl (prun tf_rff nv (pinit tf_rff) []))) <> None) /\
+  (forall nv, let p := prun tf_rff nv (pinit tf_rff) [OPredict 0] in
+     admissible all_on fam_exact init [OPredict 0] = true /\ training (p_st p) = false /\
+     load_strict (construct tf_rff (p_tbl p)) (state_dict (p_tbl p)) = None /\
+     predict [7] (load (construct tf_rff (p_tbl p)) (state_dict (p_tbl p))) <> predict [7] (p_tbl p)).
+Proof.
+  split; [reflexivity|]. split.
+  - intros nv. cbv. discriminate.
+  - intros nv. cbv. repeat split; discriminate.
+Qed.
+
+Lemma ex_persist_history :
+  wf_tfam tf_exact = true /\ t_lazy tf_exact = [] /\ wf_family (t_c03 tf_exact) = true /\
+  admissible all_on (t_c03 tf_exact) init ex_hist = true /\
+  training (p_st (prun tf_exact (fun v a => 1000 * v + a) (pinit tf_exact) ex_hist)) = false /\
+  predict [0; 1; 3] (p_tbl (prun tf_exact (fun v a => 1000 * v + a) (pinit tf_exact) ex_hist)) =
+    [Some 2000; Some 2001; Some 1003].
+Proof. repeat split; reflexivity. Qed.
